@@ -126,11 +126,12 @@ def _maybe_open(path_or_file: Pathish | IO, mode: str) -> Generator[IO, None, No
     If given an open file handle, the handle is returned as-is.
     The file is not closed when the context manager closes.
     """
-    if isinstance(path_or_file, IO):
-        yield path_or_file
-    else:
+    # typing.IO is not a runtime protocol: no opened file is an instance of it.
+    if isinstance(path_or_file, (str, os.PathLike)):
         with open(path_or_file, mode) as f:
             yield f
+    else:
+        yield path_or_file
 
 
 def write_shapefile(
